@@ -136,4 +136,20 @@ def mannWhitney {α : Type} [LT α] [DecidableLT α] [DecidableEq α]
   if n1 = 0 ∨ n2 = 0 then .error .sampleSize else
   decide' cdf limit tiesLimit alt n1 n2 (ranks (labeledMerge (sortF x1) (sortF x2)))
 
+/-- `benchmath.AssumeNothing.Compare` (anone.go, after 4d4bbc9): P = 1 with a warning when the U-test
+    fails; otherwise twice the smaller of the two one-sided *less* p-values (the samples in both
+    orders), capped at 1. `none` = the error case. -/
+def compareAssumeNothing {α : Type} [LT α] [DecidableLT α] [DecidableEq α]
+    (cdf : Nat → Nat → List Nat → Int → Rat) (limit tiesLimit : Nat) (x1 x2 : List α) :
+    Except Err Rat :=
+  match mannWhitney cdf limit tiesLimit x1 x2 .differs with
+  | .error e => .error e
+  | .normal _ _ _ => .error .sampleSize      -- not modelled here (the family stays on the exact branch)
+  | .exact _ p =>
+    match mannWhitney cdf limit tiesLimit x1 x2 .less, mannWhitney cdf limit tiesLimit x2 x1 .less with
+    | .exact _ l1, .exact _ l2 =>
+        let m := if l1 ≤ l2 then l1 else l2
+        .ok (if 2 * m ≤ 1 then 2 * m else 1)
+    | _, _ => .ok p
+
 end Stats.UStat
